@@ -109,6 +109,9 @@ def parse_group(text):
                      "covers": r["covers"]} for r in subs]}
     # a compile error / missing summary after the sections
     if not re.search(r"Complete - \d+ successfully verified harnesses", text):
+        # the last section may be cut off mid-way: drop an incomplete trailing INCONCLUSIVE
+        if agg["verdict"] == "INCONCLUSIVE" and any(x["verdict"] == "COUNTEREXAMPLE" for x in agg["subs"]):
+            agg["verdict"] = "COUNTEREXAMPLE"
         if agg["verdict"] == "HOLDS":
             agg["verdict"], agg["reason"] = "INCONCLUSIVE", "group run did not complete"
     return agg
@@ -198,7 +201,11 @@ def run_one(h, worker):
     text = open(log, errors="replace").read()
     r = parse_group(text) if h.group else parse_log(text)
     if timed_out:
-        r["verdict"], r["reason"] = "INCONCLUSIVE", f"timeout after {h.timeout}s"
+        # a group that ran out of time still reports the counterexamples it found before
+        if not (h.group and r.get("verdict") == "COUNTEREXAMPLE"):
+            r["verdict"], r["reason"] = "INCONCLUSIVE", f"timeout after {h.timeout}s"
+        else:
+            r["reason"] += f" (group timed out after {h.timeout}s before all members ran)"
     r.update(harness=h.name, wall_s=round(wall, 1), log=log, mem_cap_gb=h.mem)
     return r
 
